@@ -89,6 +89,14 @@ PAIRS_MORE = [
     (('small', 6, 'U32', 'ntr', 1), ('small', 2, 'U32', 0)),
 ]
 
+# same width, different signedness: the Lean side has no signed word model, so these pairs are run on the implementation only
+# (std::vector oracle, lifetime and allocator ledgers, sanitizers) -- a search for a failing input, not part of the proof
+PAIRS_SIGNED = [
+    (('small', 3, 'U8', 'ntr', 0), ('small', 3, 'I8', 0)),
+    (('std', 0, 'I8', 'ntr', 0), ('std', 0, 'U8', 0)),
+    (('small', 2, 'I16', 'tr', 1), ('std', 0, 'U16', 1)),
+]
+
 def run(ctx):
     ok = ctx.lean(['AmcVerif.Props.C13', 'AmcVerif.Props.C13b', 'AmcVerif.Props.C13c', 'AmcVerif.Props.C13d', 'AmcVerif.Props.C13e'], extra_modules=['AmcVerif.Bridge.VecGlueBridge'])
     pairs = PAIRS_QUICK + (PAIRS_MORE if ctx.tier == 'thorough' or not ok else [])
@@ -104,6 +112,19 @@ def run(ctx):
             name, lines = next(it)
             return lines
         VC.run(ctx, [cfg], gen, len(scripts), preds=(VC.oracle_pred, VC.fault_pred), nontrivial=lambda c, l, o: True, label='C13 swap2 pair')
+    scfgs = [V.VecCfg(a[0], a[1], a[2], a[3], alloc=a[4], pool=1, partner=b, pool2=1) for a, b in PAIRS_SIGNED]
+    V.build(scfgs)
+    nsigned = 0
+    for cfg in scfgs:
+        scripts = gen_all(cfg)
+        nsigned += len(scripts)
+        it = iter(scripts)
+        def gen(rng, c, k, it=it):
+            name, lines = next(it)
+            return lines
+        VC.run(ctx, [cfg], gen, len(scripts), preds=(VC.oracle_pred, VC.fault_pred), need_model=False, nontrivial=lambda c, l, o: True,
+               label='C13 swap2 pair, size types of equal width and different signedness (implementation and std::vector oracle only)')
+    ctx.coverage['signed_pairs_impl_only'] = nsigned
     ctx.coverage['exhaustive'] = True
     ctx.coverage['operand_state_pairs'] = total
     ctx.coverage['rule'] = ('every ordered pair of the listed configurations (flavour, N, size_type, allocator) x every pair of operand states '
@@ -112,4 +133,5 @@ def run(ctx):
                             'and unchanged operands on failure, live-object and allocator ledgers, and everything diffed against the Lean model')
 
 def replay(ctx, path):
-    return VC.replay_file(path, preds=(VC.oracle_pred, VC.fault_pred))
+    signed = any(l.startswith('cfg ') and (' st=I' in l or ' st2=I' in l) for l in open(path))
+    return VC.replay_file(path, preds=(VC.oracle_pred, VC.fault_pred), need_model=not signed)
